@@ -253,7 +253,29 @@ Fixpoint join_sig (l : list (name * ty)) : list N :=
 
 Definition column_signature (b : batch) : list N :=
   join_sig (fold_right insert_by_name []
-              (map (fun nc => (fst nc, c_ty (snd nc))) (filter (fun nc => sig_visible (fst nc)) (b_cols b)))).
+              (map (fun nc : name * col => (fst nc, c_ty (snd nc))) (filter (fun nc => sig_visible (fst nc)) (b_cols b)))).
+
+(* bufferSchemaKey (5cfca39): the value stored in bufferSchemas and compared on every write.  The
+   plain signature when every column name is non-empty, does not start with '_' and contains no
+   ','; otherwise 0x00 followed by "<len>:<name>:<typ>;" for EVERY column, sorted by name. *)
+Definition name_plain (n : name) : bool :=
+  match n with [] => false | c :: _ => negb (N.eqb c 95) end && negb (existsb (N.eqb 44) n).
+
+Fixpoint dec_bytes_aux (fuel n : nat) (acc : list N) : list N :=       (* strconv.Itoa *)
+  match fuel with
+  | O => acc
+  | S f => let acc' := N.of_nat (48 + Nat.modulo n 10) :: acc in
+           if Nat.eqb (Nat.div n 10) 0 then acc' else dec_bytes_aux f (Nat.div n 10) acc'
+  end.
+Definition dec_bytes (n : nat) : list N := dec_bytes_aux (S n) n [].
+
+Definition sorted_entries (cs : list (name * col)) : list (name * ty) :=
+  fold_right insert_by_name [] (map (fun nc => (fst nc, c_ty (snd nc))) cs).
+
+Definition buffer_schema_key (b : batch) : list N :=
+  if forallb (fun nc => name_plain (fst nc)) (b_cols b) then column_signature b
+  else 0%N :: flat_map (fun e => dec_bytes (length (fst e)) ++ [58%N] ++ fst e ++ [58%N] ++ ty_tag (snd e) ++ [59%N])
+                       (sorted_entries (b_cols b)).
 
 (* ------------------------------------------------------------------------------------ *)
 (* mergeBatches                                                                          *)
